@@ -16,6 +16,18 @@ use std::fmt::Write;
 use std::net::{IpAddr, Ipv4Addr, Ipv6Addr, SocketAddr};
 use std::sync::atomic::Ordering;
 
+/// An `Encodable` whose encoding is an arbitrary byte string (a hand-written impl that may forget
+/// headers, encode several items, or nothing at all — like alloy-rlp's own `PhantomData`).
+pub struct RawEnc(pub Vec<u8>);
+impl Encodable for RawEnc {
+    fn encode(&self, out: &mut dyn bytes::BufMut) {
+        out.put_slice(&self.0);
+    }
+    fn length(&self) -> usize {
+        self.0.len()
+    }
+}
+
 #[derive(Clone, Debug)]
 pub struct Case {
     pub fam: String,
@@ -205,6 +217,83 @@ pub fn exec_case<S: Sch>(case: &Case, out: &mut String, with_acc: bool) {
     let mut cur: Option<Enr<HKey<S::K>>> = None;
     let mut slots: BTreeMap<String, Enr<HKey<S::K>>> = BTreeMap::new();
     for line in &case.lines {
+        // `grow_to` is resolved here into the concrete insertion that brings the record to the wanted
+        // size (the trace then contains an ordinary `insert` step)
+        let resolved: String;
+        let line = if line.contains("op=grow_to") {
+            let (_, m0) = toks(line);
+            let want: usize = m0.get("size").and_then(|x| x.parse().ok()).unwrap_or(300);
+            let signer0: usize = m0.get("signer").and_then(|x| x.parse().ok()).unwrap_or(0);
+            let mut best = 0usize;
+            if let (Some(e0), Some(k)) = (cur.as_ref(), keys.get(signer0)) {
+                for l in 0..=120usize {
+                    let mut probe = e0.clone();
+                    let ok = probe.insert(b"zzz", &vec![0x62u8; l].as_slice(), k).is_ok();
+                    let _ = k.take_log();
+                    if ok && probe.size() <= want {
+                        best = l;
+                    }
+                    if ok && probe.size() >= want {
+                        break;
+                    }
+                }
+            }
+            resolved = format!(
+                "step op=insert key=7a7a7a vt=bytes val={} signer={} fail=0",
+                hx(&vec![0x62u8; best]),
+                signer0
+            );
+            &resolved
+        } else if line.contains("op=reannounce") {
+            // resolved into the setter call whose argument is exactly what the typed accessor reports now
+            let (_, m0) = toks(line);
+            let what = m0.get("what").map(|x| x.as_str()).unwrap_or("-");
+            let tail = format!(
+                "signer={} fail={}",
+                m0.get("signer").map(|x| x.as_str()).unwrap_or("0"),
+                m0.get("fail").map(|x| x.as_str()).unwrap_or("0")
+            );
+            let body: Option<String> = cur.as_ref().and_then(|e0| match what {
+                "client" => guard(|| e0.client_info()).flatten().map(|(a, b, c)| {
+                    format!(
+                        "step op=set_client_info name={} ver={} build={}",
+                        hx(a.as_bytes()),
+                        hx(b.as_bytes()),
+                        c.map(|x| hx(x.as_bytes())).unwrap_or("none".into())
+                    )
+                }),
+                "udp4" => e0.udp4().map(|p| format!("step op=set_udp4 port={p}")),
+                "udp6" => e0.udp6().map(|p| format!("step op=set_udp6 port={p}")),
+                "tcp4" => e0.tcp4().map(|p| format!("step op=set_tcp4 port={p}")),
+                "tcp6" => e0.tcp6().map(|p| format!("step op=set_tcp6 port={p}")),
+                "ip4" => e0.ip4().map(|a| format!("step op=set_ip ip={}", hx(&a.octets()))),
+                "ip6" => e0.ip6().map(|a| format!("step op=set_ip ip={}", hx(&a.octets()))),
+                "udp4s" => e0
+                    .udp4_socket()
+                    .map(|a| format!("step op=set_udp_socket ip={} port={}", hx(&a.ip().octets()), a.port())),
+                "tcp4s" => e0
+                    .tcp4_socket()
+                    .map(|a| format!("step op=set_tcp_socket ip={} port={}", hx(&a.ip().octets()), a.port())),
+                "udp6s" => e0
+                    .udp6_socket()
+                    .map(|a| format!("step op=set_udp_socket ip={} port={}", hx(&a.ip().octets()), a.port())),
+                "tcp6s" => e0
+                    .tcp6_socket()
+                    .map(|a| format!("step op=set_tcp_socket ip={} port={}", hx(&a.ip().octets()), a.port())),
+                "raw" => e0.iter().nth(m0.get("n").and_then(|x| x.parse().ok()).unwrap_or(0)).map(|(k, v)| {
+                    format!("step op=insert_raw key={} raw={}", hx(k), hx(v))
+                }),
+                "pubkey" => Some("step op=set_public_key pk=0".to_string()),
+                _ => None,
+            });
+            resolved = match body {
+                Some(b) => format!("{b} {tail}"),
+                None => format!("step op=remove_key key=6e6f6e65 {tail}"),
+            };
+            &resolved
+        } else {
+            line
+        };
         let (head, m) = toks(line);
         let get = |k: &str| m.get(k).map(|s| s.as_str()).unwrap_or("-");
         let signer: usize = get("signer").parse().unwrap_or(0);
@@ -242,6 +331,9 @@ pub fn exec_case<S: Sch>(case: &Case, out: &mut String, with_acc: bool) {
                                     }
                                     "raw" => {
                                         b.add_value_rlp(unhx(f[1]), Bytes::from(unhx(f[2])));
+                                    }
+                                    "enc" => {
+                                        b.add_value(unhx(f[1]), &RawEnc(unhx(f[2])));
                                     }
                                     "bytes" => {
                                         b.add_value(unhx(f[1]), &unhx(f[2]).as_slice());
@@ -403,6 +495,38 @@ pub fn exec_case<S: Sch>(case: &Case, out: &mut String, with_acc: bool) {
                 }
                 continue;
             }
+            "tamperdec" => {
+                // right after the previous call (same thread): copies of the current encoding with one
+                // content byte changed near the end must all be rejected
+                let r = guard(|| {
+                    let mut enc = Vec::new();
+                    e.encode(&mut enc);
+                    let mut accepted: Option<Vec<u8>> = None;
+                    for back in 1..=6usize {
+                        if enc.len() <= back + 70 {
+                            break;
+                        }
+                        for delta in [1u8, 0x10, 0x80] {
+                            let mut t = enc.clone();
+                            let i = t.len() - back;
+                            t[i] ^= delta;
+                            let mut b: &[u8] = &t;
+                            if Enr::<HKey<S::K>>::decode(&mut b).is_ok() {
+                                accepted = Some(t);
+                            }
+                            let text = format!("enr:{}", crate::gen_dec::b64(&enc));
+                            let _ = text;
+                        }
+                    }
+                    accepted
+                });
+                match r {
+                    None => writeln!(out, "out res=panic").unwrap(),
+                    Some(None) => writeln!(out, "out res=ok").unwrap(),
+                    Some(Some(t)) => writeln!(out, "out res=accepted buf={}", hx(&t)).unwrap(),
+                }
+                continue;
+            }
             "setcur" => {
                 // replace the current record by a decoded one
                 let buf = unhx(get("buf"));
@@ -445,6 +569,7 @@ pub fn exec_case<S: Sch>(case: &Case, out: &mut String, with_acc: bool) {
         }
         let key = &keys[signer];
         key.fail.store(fail, Ordering::SeqCst);
+        key.shape.store(get("sigshape").parse().unwrap_or(0), Ordering::SeqCst);
         let res: Option<Result<String, Error>> = guard(|| {
             let port = |o: Option<u16>| {
                 format!("port:{}", o.map(|p| p.to_string()).unwrap_or("none".into()))
@@ -456,6 +581,8 @@ pub fn exec_case<S: Sch>(case: &Case, out: &mut String, with_acc: bool) {
                 "insert" => {
                     let k = unhx(get("key"));
                     let r = match get("vt") {
+                        "rawenc" => e.insert(&k, &RawEnc(unhx(get("val"))), key),
+                        "phantom" => e.insert(&k, &std::marker::PhantomData::<u64>, key),
                         "uint" => e.insert(&k, &get("val").parse::<u64>().unwrap(), key),
                         "strs" => {
                             let l: Vec<Bytes> = parse_list(get("val"))
@@ -546,6 +673,7 @@ pub fn exec_case<S: Sch>(case: &Case, out: &mut String, with_acc: bool) {
             }
         });
         key.fail.store(false, Ordering::SeqCst);
+        key.shape.store(0, Ordering::SeqCst);
         let log = signlog_str(&keys);
         match res {
             None => writeln!(out, "out res=panic signlog={log}").unwrap(),
